@@ -33,6 +33,13 @@ func uploadScenario(fault string, size int, chunk int) string {
 			w.WriteHeader(http.StatusPreconditionFailed)
 		case "early2xx":
 			w.WriteHeader(http.StatusCreated)
+		case "early308":
+			// a redirect the transport cannot follow (the streamed body cannot be replayed): the 3xx answer comes back
+			w.Header().Set("Location", "/elsewhere/f")
+			w.WriteHeader(http.StatusPermanentRedirect)
+		case "late300":
+			io.Copy(io.Discard, r.Body)
+			w.WriteHeader(http.StatusMultipleChoices)
 		case "early2xx-stall":
 			// the answer's header block goes out at once, then the server neither reads the body nor finishes the
 			// response until the client goes away
@@ -181,7 +188,7 @@ func uploadScenario(fault string, size int, chunk int) string {
 
 func famUpload(o *Out, r *RNG, thorough bool) {
 	sizes := []int{0, 4096, 5 << 20, 16 << 20}
-	for _, fault := range []string{"ok", "early", "early2xx", "early2xx-stall", "partial", "partial-json", "partial-bin", "drop", "stall"} {
+	for _, fault := range []string{"ok", "early", "early2xx", "early2xx-stall", "early308", "late300", "partial", "partial-json", "partial-bin", "drop", "stall"} {
 		for _, size := range sizes {
 			chunks := []int{64 << 10}
 			if size == 4096 {
